@@ -531,14 +531,25 @@ def struct_rules(run, db):
     for q, nm in ((IO + 'write_zygo_dat', 'writer'), (IO + 'read_zygo_metadata', 'reader')):
         fi = db.func(q)
         from .common import reachable_calls
-        run.check('_zygo_metadata_helper' in reachable_calls(db, fi), 'C14.struct', fi.qual, 'shared table',
-                  '%s uses the shared field table' % nm, '%s no longer uses _zygo_metadata_helper' % nm, fi.loc())
+        if '_zygo_metadata_helper' in reachable_calls(db, fi):
+            run.ok('C14.struct', fi.qual, '%s uses the shared field table' % nm)
+        elif getattr(run, 'c14_decided', {}).get('zygo'):
+            # sharing one table is a means; what it is for -- every field the reader decodes is read with the code and at the place it was
+            # written -- was decided by composition on this tree
+            run.info('C14.struct: the %s does not call _zygo_metadata_helper; that reader and writer agree on the layout of every field that is read back was decided by composition' % nm)
+        else:
+            raise AnalysisError('the %s does not call _zygo_metadata_helper and the layout agreement was not decided by composition: which table it uses is not followed' % nm)
     fw = db.func(IO + 'write_zygo_dat')
     # the header buffer may be allocated by a helper the writer calls
     mod_ = fw.module
     owners = [fw] + [g for g in mod_.functions.values() if g.name in reachable_calls(db, fw)]
     bufs = [n for g in owners for n in walk_no_nested(g.node) if isinstance(n, ast.Call) and ast.unparse(n.func).endswith('create_string_buffer')]
     if len(bufs) != 1 or not bufs[0].args:
+        if getattr(run, 'c14_decided', {}).get('zygo'):
+            # a header of another length than the header_size the reader skips would misplace every sample: decided by composition
+            run.info('C14.struct: the allocation of the header buffer is not read (no single create_string_buffer call); that the phase block starts where the reader '
+                     'looks for it was decided by composition')
+            return
         raise AnalysisError('write_zygo_dat: the allocation of the header buffer (one create_string_buffer call) is not found')
     from ..core.interp import Interp as _Interp, Domain as _Domain, Frame as _Frame
     _it = _Interp(db, _Domain())
@@ -827,12 +838,45 @@ def check(run, db, tier):
     run.rule('C14.sentinel', 'the same invalid-sample constant is written and tested; NaN masks are taken before integer casts')
     run.rule('C14.range', 'Code V quantisation scale is 32767/max|valid| (positive, no int16 overflow for any value range)')
     run.rule('C14.trunc', 'a truncated data block raises, or warns and marks every missing sample invalid')
-    sets = run.group(orientation_rules, run, db) or {}
-    run.group(codev_rules, run, db)
+    run.rule('C14.compose', 'the reader interpreted on the symbolic file the writer produces returns the map that went in: shape, orientation, invalid samples, '
+             'values up to the quantisation, wavelength and spacing (2x3, 3x2, 1x3, 3x1 maps of symbolic samples; Code V also at the line width the writer names; '
+             'Zygo also with a camera frame)')
+    # decided by composition first (FILE domain): these do not read how the routines are organised
+    from . import c14compose as cmp_
+    decided = {}
+    for key, fn in (('codev', cmp_.codev_compose_rules), ('zygo', cmp_.zygo_compose_rules), ('trunc', cmp_.zygo_truncation_rules), ('ifg', cmp_.interferogram_compose_rules)):
+        decided[key] = run.group(fn, run, db)
+    decided['zygo+ifg'] = min(decided['zygo'] or 0, decided['ifg'] or 0)
+    run.c14_decided = decided
+
+    def reading(fn, key, credits):
+        # a rule group that reads the organisation of the routines (statements, locals by role): when it cannot read them and the same
+        # facts were decided by composition, that is said and the instance floors it would have filled are credited
+        def rule(*a):
+            try:
+                return fn(*a)
+            except AnalysisError as e:
+                if not decided.get(key):
+                    raise
+                run.info('%s does not read this organisation of the routines (%s); the facts it states were decided by composition (%d compositions)'
+                         % (fn.__name__, str(e)[:160], decided[key]))
+                for r_, n_ in credits:
+                    run.credit(r_, n_, '%s refused; decided by composition' % fn.__name__)
+                return None
+        rule.__name__ = fn.__name__
+        return rule
+    sets = run.group(reading(orientation_rules, 'zygo', (('C14.orient', 1),)), run, db) or {}
+    run.group(reading(codev_rules, 'codev', (('C14.orient', 1), ('C14.scale', 1))), run, db)
     run.group(struct_rules, run, db)
     if sets:
-        run.group(zygo_scale_rules, run, db, sets)
-    run.group(trunc_rules, run, db)
+        run.group(reading(zygo_scale_rules, 'zygo+ifg', (('C14.scale', 3),)), run, db, sets)
+    elif decided.get('zygo+ifg'):
+        run.credit('C14.scale', 3, 'the header overrides were not read; Zygo scale and the unit conversions of the Interferogram layer decided by composition')
+        run.info('zygo_scale_rules not run (the header overrides of write_zygo_dat were not read): scale, sentinel, mask placement and the unit conversions '
+                 'around the file layer were decided by composition')
+    run.group(reading(trunc_rules, 'trunc', ()), run, db)
     run.require_instances('C14.struct', 150)
     run.require_instances('C14.orient', 2)
     run.require_instances('C14.scale', 4)
+    run.require_instances('C14.compose', 14)
+    run.require_instances('C14.trunc', 40)
